@@ -1,9 +1,12 @@
 """C02 - a client asked to use STARTTLS never proceeds in clear text.
 A: TLC design check of tla/StartTLS.tla (adversarial peer scripts; code-like deviations must break
 the invariants) plus the state-machine part in Negotiation.tla (C02_NoReadyInClear, forced attempt,
-tee).  B: TLC emits every peer script.  C: the real initiating negotiation (xmpp.StartTLS + SASL +
-an instrumented feature that needs Secure) runs against a peer that really speaks TLS; every
-scenario x tee setting x reuse of one feature value for three sessions is validated by TLC."""
+tee).  B: TLC emits every job: peer script x addresses of 1..3 successive sessions that share one
+feature value (own address and location equal / different, NewClientSession / NewSession / initiating
+server-to-server session, spelling of the own address, `to` in the peer's headers) x tee settings.
+C: the real initiating negotiation (xmpp.StartTLS + SASL + an instrumented feature that needs
+Secure) runs against a peer that really speaks TLS; every session is validated by TLC - the server
+name the handshake has to carry is computed by the specification (OwnName)."""
 import json, os, re, shutil
 import verif
 import negcommon as nc
@@ -29,22 +32,33 @@ def validate(ctx, trace):
 def run(ctx):
     quick = ctx.tier == "quick"
     mc = ctx.model_check("StartTLS", MC % "{}", INVS, timeout=600)
-    for dev in ("SkipForcedTLS", "KeepBufferedClear", "StaleSNI", "ClearLeak"):
+    devs = ("SkipForcedTLS", "KeepBufferedClear", "StaleSNI", "RemoteSNI", "ClearLeak")
+    for dev in devs:
         bad = ctx.tlc("StartTLS", MC % ('{"%s"}' % dev), name="StartTLS_" + dev, timeout=300)
         if bad.rc == 0:
             raise verif.Undecided("design check is vacuous: deviation %s breaks no invariant" % dev)
     # state-machine part shared with C01 (forced STARTTLS on the first list, tee transparency)
     mcn = ctx.model_check("MCNegotiation", nc.MC_CFG % dict(pool="PoolQuick", maxcfg=2, rounds=2, maxlist=2),
                           ["C02_NoReadyInClear (Negotiation.tla)"], timeout=1500)
-    em = ctx.tlc("EmitStartTLS", "CONSTANTS\n  Dev = {}\nINIT Init\nNEXT Next\n", workers=1, timeout=120)
-    scripts = ctx.path("starttls_scripts.ndjson")
-    shutil.copy(os.path.join(em.dir, "starttls_scripts.ndjson"), scripts)
+    em = ctx.tlc("EmitStartTLS", "CONSTANTS\n  Dev = {}\nINIT Init\nNEXT Next\nCHECK_DEADLOCK FALSE\n", workers=1, timeout=120)
+    scripts = ctx.path("starttls_jobs.ndjson")
+    if not os.path.exists(os.path.join(em.dir, "starttls_jobs.ndjson")):
+        raise verif.Undecided("EmitStartTLS failed:\n" + em.out[-2000:])
+    shutil.copy(os.path.join(em.dir, "starttls_jobs.ndjson"), scripts)
+    njobs = sum(1 for _ in open(scripts))
+    env = {}
     if ctx.replay:
         case = json.load(open(ctx.replay))["case"]
-        open(scripts, "w").write(json.dumps(case["scenario"]) + "\n")
+        job = case["scenario"].get("job")
+        if job is None:    # one of the overlapping sessions: the driver runs those after the jobs
+            job = {"peer": {k: case["scenario"]["scenario"][k] for k in ("feat", "answer", "inject", "hs", "cfg")},
+                   "run": [case["scenario"]["scenario"]["addr"]], "tees": [0]}
+        else:
+            env["STARTTLS_OVERLAP"] = "0"
+        open(scripts, "w").write(json.dumps(job) + "\n")
     b = ctx.go_build("starttls")
     tr = ctx.path("starttls-trace.ndjson")
-    out = ctx.run_driver(b, ["run", scripts, tr], timeout=1500)
+    out = ctx.run_driver(b, ["run", scripts, tr], env=env, timeout=1500)
     summ = json.loads(out[out.rindex("SUMMARY ") + 8:])
     rej, r = validate(ctx, tr)
     ctx.log("%d scenarios run against the real negotiator (real TLS): TLC validated %d traces in %.1fs, %d rejected; %d tee mismatches" % (
@@ -54,12 +68,21 @@ def run(ctx):
     seen = set()
     for t, hw in sorted(rej.items()):
         ev = [e for e in trs[t] if e["_line"] == hw]
-        key = json.dumps([meta[t].get(k) for k in ("feat", "answer", "inject", "hs", "cfg")]) + json.dumps((ev[0] if ev else {}).get("ev"))
+        sc = meta[t]["scenario"]
+        key = json.dumps([sc.get(k) for k in ("feat", "answer", "inject", "hs", "cfg")]) + json.dumps(
+            [sc["addr"]["kind"], sc["addr"]["loc"] == sc["addr"]["own"], len(sc["hist"])]) + json.dumps((ev[0] if ev else {}).get("ev"))
         if key in seen or len(seen) > 30:
             continue
         seen.add(key)
-        ctx.violation("STARTTLS negotiation is not a behaviour of StartTLS.tla: scenario %s rejected at %s" % (
-            json.dumps(meta[t]), json.dumps(ev[0] if ev else None)[:300]),
+        what = "STARTTLS negotiation is not a behaviour of StartTLS.tla"
+        if ev and ev[0]["ev"] == "handshake" and sc["cfg"] == "default":
+            # no TLS configuration was supplied: the specification asks for the domain of the session's own address
+            a = sc["addr"]
+            what = ("with no TLS configuration supplied the handshake names %r, not the domain of the session's own address %r "
+                    "(%s session, location %r, session %d negotiated with this feature value)" % (
+                        ev[0].get("sni"), ev[0].get("origin"), {"client": "NewClientSession", "c2s": "NewSession", "s2s": "server-to-server NewSession"}[a["kind"]],
+                        ev[0].get("location"), len(sc["hist"]) + 1))
+        ctx.violation("%s: scenario %s rejected at %s" % (what, json.dumps(sc), json.dumps(ev[0] if ev else None)[:300]),
             {"family": "starttls", "scenario": meta[t], "trace": trs[t], "rejected_line": hw, "rejected_event": ev[0] if ev else None})
     for m in summ["mismatches"][:10]:
         ctx.violation("stream tee is not transparent: " + m["what"], {"family": "starttls-tee", "scenario": m["scenario"], "observed": m})
@@ -74,10 +97,12 @@ def run(ctx):
         "traces_validated_against_impl": summ["traces"] + summn["traces"],
         "starttls_scenarios": summ["evaluations"], "negotiation_traces": summn["traces"],
         "rejected": len(rej) + len(rejn), "tee_mismatches": len(summ["mismatches"]),
-        "deviations_shown_to_break_invariants": 4, "binding_selftest_mutants_rejected": nself,
+        "deviations_shown_to_break_invariants": len(devs), "jobs_emitted": njobs,
+        "sessions_by_address_kind": summ.get("extra", {}).get("sessions_by_address_kind", {}), "binding_selftest_mutants_rejected": nself,
         "samples": summ["samples"][:2], "exhaustive": True,
-        "rule": "every peer script of StartTLS.tla (6 feature-list variants x 6 answers to <starttls/> x 3 kinds of pipelined clear text x handshake ok/fail x explicit/default TLS config) x 4 tee settings x 3 successive sessions sharing one feature value (default config); plus seeded negotiation scenarios with instrumented STARTTLS-like features and tee",
-    }, assumptions=["crypto/tls is trusted; certificate policy is out of scope", "pipelined clear text is sent in the same write as the answer (a later, separate write reaches the TLS layer and fails the handshake: equally safe)"])
+        "rule": "every peer script of StartTLS.tla (6 feature-list variants x 7 answers to <starttls/> x 3 kinds of pipelined clear text x handshake ok/fail x explicit/default TLS config) x 4 tee settings x 3 successive sessions sharing one feature value (default config); address dimension: the scripts that reach a handshake with the default configuration (STARTTLS advertised / forced) x every run of 3 successive sessions sharing one feature value, each session made by NewClientSession, by NewSession with a location equal to / different from the domain of its own address, or as an initiating server-to-server session (own address = a domain, other location), and every single session and every second session of two also with an upper-case spelling of the own address and with / without `to` in the peer's headers - the server name the ClientHello has to carry is computed by the specification (OwnName: the domain of the session's OWN address; deviations StaleSNI, RemoteSNI rejected by the design check); plus seeded negotiation scenarios with instrumented STARTTLS-like features and tee",
+    }, assumptions=["crypto/tls is trusted; certificate policy is out of scope",
+        "server-to-server sessions: the property text and the doc comment of xmpp.StartTLS both name the session's own (local) address; that RFC 6120 13.7.2.1 has an initiating server check the certificate against the domain it connects to is not held against the code", "pipelined clear text is sent in the same write as the answer (a later, separate write reaches the TLS layer and fails the handshake: equally safe)"])
 
 
 def selftest(ctx, trace):
